@@ -10,8 +10,8 @@
    (harness/drv.c prints "bad" otherwise, gen/c02.py reports it). *)
 From Coq Require Import List NArith Bool String.
 From UP Require Import Base.Chars Model.Uri Model.Ip4 Model.Parse Spec.NormalWf Spec.Unparse Spec.Identity
-  Proofs.ParseData Proofs.ParseWfStep Proofs.ParseWf.
-From UP Require Proofs.ResolveProofs.
+  Spec.Split Proofs.ParseData Proofs.ParseWfStep Proofs.ParseWf Proofs.ParseSplit.
+From UP Require Proofs.ResolveProofs Spec.Rfc3986.
 Import ListNotations.
 Local Open Scope N_scope.
 
@@ -59,6 +59,35 @@ Print Assumptions C02_parsed_wf_for_normalization.
 Theorem C02_parsed_wf_for_equality : forall s u, parse s = POk u -> uri_nul_free u.
 Proof. exact parse_wf_equality. Qed.
 Print Assumptions C02_parsed_wf_for_equality.
+
+(* The object is the one the Appendix-B style splitter of Spec/Split.v (RFC 3986 appendix B plus
+   the authority and path structure of section 3) assigns to the text: [spec_addr u] is [u] with the
+   two address fields recomputed from the host text by the specification functions (ip4_value when
+   the text matches IPv4address, ip6_value).
+   PARTIAL: what is missing for [u = split_spec s] is exactly
+     parse_ip4 h = if matchb IPv4address h then Some (ip4_value h) else None      (Model/Ip4.v)
+     ip6_bytes h = ip6_value h   for the text h of an accepted IPv6 literal       (Model/Parse.v)
+   which are statements about the two address scanners alone; Proofs/ParseSplit.v
+   parse_split_given_addr derives [u = split_spec s] from them. *)
+Theorem C02_split_partial : forall s u, parse s = POk u -> split_spec s = spec_addr u.
+Proof. exact parse_split. Qed.
+Print Assumptions C02_split_partial.
+
+(* Absent components are reported as absent (None) and present-but-empty ones as empty (Some []):
+   each optional component, as an [option text], is the splitter's.  The splitter reports a
+   component as present exactly when its delimiter is in the text (":" before any "/?#", "//",
+   "@" inside the authority, ":" after the host, "?", "#") and then gives the possibly empty text
+   it delimits.  Also: same segments, same absolute-path flag, same host kind. *)
+Theorem C02_absent_vs_empty : forall s u, parse s = POk u ->
+  scheme u = scheme (split_spec s) /\ userInfo u = userInfo (split_spec s)
+  /\ hostText u = hostText (split_spec s) /\ portText u = portText (split_spec s)
+  /\ pathSegs u = pathSegs (split_spec s) /\ absolutePath u = absolutePath (split_spec s)
+  /\ query u = query (split_spec s) /\ fragment u = fragment (split_spec s)
+  /\ ipFuture u = ipFuture (split_spec s)
+  /\ is_some (ip6 u) = is_some (ip6 (split_spec s))
+  /\ (is_lit u = true -> ip4 u = None /\ ip4 (split_spec s) = None).
+Proof. exact parse_split_components. Qed.
+Print Assumptions C02_absent_vs_empty.
 
 (* ---- non-vacuity: concrete inputs (the hypothesis [parse s = POk u] is satisfiable, and the
    objects are what one expects) ------------------------------------------------------------- *)
